@@ -141,10 +141,24 @@ func runC16(c *Ctx) error {
 		}
 		linkT := func(l *hlink) string { return fmt.Sprintf("(mkLink %d %s %d)", ids[l], ipN(l.to.id.IP), l.label) }
 		nOps := 4 + c.Rng.IntN(14)
+		// crowded: once a first peer is registered, its routing prefix (which is also the other
+		// candidates') is filled beyond twice its limit with routes learned through it; peers that
+		// connect afterwards must still get their direct-peer route
+		crowd := hi%6 == 5
+		fill := 0
 		for oi := 0; oi < nOps; oi++ {
 			var opT, desc string
 			okObs := true
-			switch k := c.Rng.IntN(10); {
+			if crowd && fill == 0 && len(R.pe.GetLinks()) > 0 {
+				fill = 70
+				nOps += fill
+			}
+			k := c.Rng.IntN(10)
+			if fill > 1 {
+				k = 9
+				fill--
+			}
+			switch {
 			case k < 4 || len(links) == 0:
 				p := peers[c.Rng.IntN(len(peers))]
 				peerNode := &rnode{name: "x", id: &m.Address{PublicAddress: m.PublicAddress{IP: p}}}
@@ -175,6 +189,9 @@ func runC16(c *Ctx) error {
 				}
 				nh := regd[c.Rng.IntN(len(regd))].Peer()
 				dst := addrFrom(0xfd30_0000_0000_0000|uint64(c.Rng.IntN(1<<20))<<8, uint64(0x900+oi))
+				if fill > 1 {
+					dst = addrFrom(0xfd20_0000_0000_0000|uint64(c.Rng.IntN(1<<24))<<8, uint64(0x9000+oi))
+				}
 				hops := []m.SwitchHop{{Router: R.id.IP, Delay: 5, ForwardLabel: 3}, {Router: nh, Delay: 5, ForwardLabel: 3, ReturnLabel: 4}, {Router: dst, ReturnLabel: 9}}
 				added, err := R.ro.Table().AddRoute(m.RoutingTableEntry{DstIP: dst, NextHop: nh, Path: m.SwitchPath{Hops: hops}, Source: m.RouteSourceGossip, Expires: time.Now().Add(time.Hour)})
 				if err != nil || !added {
